@@ -38,10 +38,10 @@ def post_C01(sc, rng):
     if sc.get("any_group") or sc.get("async") or rng.random() >= 0.2:
         return sc
     from . import c15
-    for t in sc["trans"]:
-        t["ev"] = sorted(t["ev"])
     c15.inject_decor_evobj(sc, rng)
     if sc.get("decor_evobj"):
+        for t in sc["trans"]:
+            t["ev"] = sorted(t["ev"])        # (the order of the Event attributes)
         sc["evstyle"], sc["mixed"] = "event_ctor", None
         sc["decor"] = {"cbs": [], "event": None, "evobj": sc["decor_evobj"]}
     return sc
